@@ -107,7 +107,10 @@ def r1_derived_tables_flushed(ctx):
         for m in lp:
             for w in func_writes(m.node, recv_name(m)):
                 derived.setdefault(w.attr, []).append((m, w))
-        ctx.require(DICT in derived, f"{cls.key}: the lookup path never stores into the dict itself")
+        if cls is A.multimap(ctx.repo):
+            ctx.require(DICT in derived, f"{cls.key}: the lookup path never stores into the dict itself")
+        elif not derived:
+            ctx.note(f"{cls.key}: the lookup path keeps no derived state (nothing to flush)")
         reg_state = set()
         for m in regs:
             for w in func_writes(m.node, recv_name(m)):
